@@ -1417,7 +1417,489 @@ def c03(rep, tier, seed, wd, replay):
                            json.dumps({"config": h["cfg"], "ops": h["ops"][:i + 1], "impl": il[:300], "model": ml_[:300]}), found))
 
 
+DKG_DIFF_OPS = ("cluster", "gen", "holds", "hprepare", "hexecute", "hcontribute", "hcommit", "habort", "sleep")
+
+
+def c18(rep, tier, seed, wd, replay):
+    import listing
+    from common import run_impl, run_model
+    rep.cov["rule"] = ("populations of 1-3 wallets x 0-8 accounts (incl. empty wallets), per-account permission tables for two clients "
+                       "(literal/regex/alternation paths, All/None/~Access/Access/other operations), lists of requested paths (wallet only, "
+                       "wallet/regex, trailing slash, unknown wallets, case variants, malformed, duplicates), listings before and after "
+                       "accounts are created through dirk (single-participant generation, no restart); result multisets are compared with "
+                       "the Lean lister model; each listing is judged by the Lean specification: nothing listed without the access "
+                       "permission or outside the requested wallets, and every accessible account whose whole name matches a requested "
+                       "path is listed; each entry's public key is cross-checked with the fetcher; non-trivial = listing that returned >=1 account")
+    rep.assumptions += ["over-listing inside accessible accounts of a requested wallet (the lister's own un-grouped anchoring of alternations) is not a violation of C18 as stated and is not flagged"]
+    prove(rep, "C18")
+    dh = build_harness(wd)
+    keys = hist.interop_keys(dh)
+    rng = Rng(seed * 31 + 18)
+    n = tier_sizes(tier, 80, 1500)
+    scen = [listing.gen_scenario(rng.fork(), keys) for _ in range(n)]
+    lines = []
+    for cfg, ops, accts in scen:
+        lines += ["reset"] + cfg + ops
+    from concurrent.futures import ThreadPoolExecutor
+    jobs = 8
+    chunks = [scen[i::jobs] for i in range(jobs)]
+
+    def run_chunk(ch):
+        ls = []
+        for cfg, ops, accts in ch:
+            ls += ["reset"] + cfg + ops
+        impl, crashed, err = run_impl(dh, wd, ls)
+        model = run_model(ls)
+        out = []
+        pos = 0
+        for cfg, ops, accts in ch:
+            k = 1 + len(ops)
+            out.append((cfg, ops, impl[pos + 1:pos + k], model[pos + 1:pos + k]))
+            pos += k
+        return out, crashed, err
+    results = []
+    with ThreadPoolExecutor(max_workers=jobs) as ex:
+        for out, crashed, err in ex.map(run_chunk, [c for c in chunks if c]):
+            results += out
+            if crashed:
+                rep.broken.append(("implementation-crash:list", err, False))
+    first_bad = None
+    jl, jm = [], []
+    found = False
+    for si, (cfg, ops, impl, model) in enumerate(results):
+        jl += ["reset"] + [l for l in cfg if l.split()[0] in ("acct", "perm", "permclient", "wallet")] + ["begin"]
+        jm.append(None)
+        for i, op in enumerate(ops):
+            f = op.split()
+            io = impl[i] if i < len(impl) else "<missing>"
+            mo = model[i] if i < len(model) else "<missing>"
+            rep.dist("op", f[0])
+            if io.strip() != mo.strip() and first_bad is None:
+                first_bad = (cfg, ops[:i + 1], io, mo)
+            if f[0] == "list" and io.startswith("S"):
+                names = io.split()[1] if len(io.split()) > 1 else "-"
+                rep.count("%d|%s" % (si, op), names != "-")
+                if "21" in [x[-2:] for x in names.split(",")] and any(bytes.fromhex(x).decode(errors="replace").endswith("!") for x in names.split(",") if x != "-"):
+                    rep.violation("entry-wrong-key", "a listed entry does not carry its own public key", {"config": cfg, "ops": ops[:i + 1], "impl": io})
+                    found = True
+                jl.append("jlist %s %s %s" % (f[1], f[2], names))
+                jm.append((si, i))
+            elif f[0] == "create":
+                rep.dist("create", io)
+                if io == "ok":
+                    jl.append("jcreate %s" % f[2])
+                    jm.append(None)
+    out = run_model(jl)
+    rep.cov["listings_judged"] = sum(1 for m in jm if m is not None)
+    for m, o in zip(jm, out):
+        if m is not None and not o.startswith("ok"):
+            si, i = m
+            cfg, ops, impl, model = results[si]
+            what = o.split()[0]
+            name = bytes.fromhex(o.split()[1]).decode(errors="replace") if len(o.split()) > 1 and o.split()[1] != "." else ""
+            rep.violation("listing-" + what, "a listing is judged %s by the Lean specification (account %r)" % (what, name),
+                          {"config": cfg, "ops": ops[:i + 1], "impl": impl[i],
+                           "decoded": {"perms": [[bytes.fromhex(x).decode() if x not in ("-", ".") else "" for x in l.split()[1:3]] + [l.split()[3]] for l in cfg if l.startswith("perm ")]}})
+            found = True
+            break
+    if results:
+        cfg, ops, impl, model = results[0]
+        rep.sample({"ops": [o[:160] for o in ops[:3]], "impl": [x[:160] for x in impl[:3]]})
+    rep.cov["traces_validated_against_impl"] = len(results)
+    if first_bad is not None:
+        cfg, ops, io, mo = first_bad
+        rep.broken.append(("correspondence:list(model lister vs lister/standard)", json.dumps({"config": cfg, "ops": ops, "impl": io[:400], "model": mo[:400]}), found))
+
+
+DKG_DIFF_OPS_C14 = ("iatt", "iprop")
+
+
+def c14(rep, tier, seed, wd, replay):
+    import dkg
+    from common import run_model, run_impl
+    rep.cov["rule"] = ("a real distributed account (generated through the dkg engine) on n real instances with separate rules stores, "
+                       "(n,t) in {(3,2),(4,3),(5,3)} (thorough: every accepted (n,t) up to 7); pairs of conflicting duties (double vote, "
+                       "surround both ways, two blocks at one slot) routed to random subsets of instances in random interleavings with "
+                       "repeats; per-instance verdicts are compared with the model; the Lean judge counts the partial signatures each duty "
+                       "collected (both reaching t is the violation) and checks no instance signed both; for duties that reached t the "
+                       "partial signatures are combined by the BLS library and verified under the composite key over the Lean model's "
+                       "signing root; non-trivial = pair in which at least one duty reached the threshold")
+    rep.assumptions += ["concurrent delivery inside one instance reduces to a serial order by C04; instances share no state"]
+    prove(rep, "C14")
+    dh = build_harness(wd)
+    rng = Rng(seed * 29 + 14)
+    scen = dkg.c14_scenarios(rng, tier)
+    res = run_dkg(rep, dh, wd, [(s_[0], s_[4]) for s_ in scen], "dkg-cluster")
+    found = False
+    first_bad = None
+    jl, jm = [], []
+    comb = []
+    for (tag, n, t, acct, lines, pairs), r_ in zip(scen, res):
+        if r_["crashed"]:
+            dkg_report_crash(rep, r_, "C14")
+            found = True
+            continue
+        # model disagreement on the per-instance verdicts
+        for i, l in enumerate(lines):
+            if l.split()[0] in DKG_DIFF_OPS_C14 and i < len(r_["impl"]) and i < len(r_["model"]):
+                if hist.states_of(r_["impl"][i]) != hist.states_of(r_["model"][i]) and first_bad is None:
+                    first_bad = (tag, lines[:i + 1], r_["impl"][i], r_["model"][i])
+        gen_o = r_["impl"][1].split()
+        composite = gen_o[1] if gen_o[0] == "ok" else None
+        jl.append("reset")
+        for (kind, d1, d2, i1, i2) in pairs:
+            signed1 = sorted({lines[i].split()[1] for i in i1 if ":" in r_["impl"][i]})
+            signed2 = sorted({lines[i].split()[1] for i in i2 if ":" in r_["impl"][i]})
+            rep.dist("pair", kind)
+            rep.count("%s|%s|%s" % (tag, kind, d1[1][:80]), len(signed1) >= t or len(signed2) >= t)
+            jl.append("jquorum %d %d %d" % (t, len(signed1), len(signed2)))
+            jm.append((tag, kind, lines, r_["impl"], signed1, signed2))
+            both = set(signed1) & set(signed2)
+            if both:
+                rep.violation("instance-signed-both", "one instance released partial signatures for both of two conflicting duties",
+                              {"scenario": tag, "kind": kind, "instances": sorted(both), "lines": [lines[i] for i in i1 + i2]})
+                found = True
+            # combine partial signatures of a duty that reached the threshold
+            for idxs, signed in ((i1, signed1), (i2, signed2)):
+                if len(signed) >= t and composite:
+                    parts, root = {}, None
+                    for i in idxs:
+                        if ":" in r_["impl"][i]:
+                            parts[lines[i].split()[1]] = r_["impl"][i].split(":")[1]
+                            root = r_["model"][i].split(":")[1] if ":" in r_["model"][i] else root
+                    if root:
+                        chosen = sorted(parts)[:t]
+                        comb.append((tag, "combine %s %s %s %s" % (hx(acct), composite, root, ",".join("%s:%s" % (c_, parts[c_]) for c_ in chosen))))
+    out = run_model(jl)
+    for meta, o in zip(jm, [x for x in out if x.strip() in ("ok", "BOTH-REACH-THRESHOLD")]):
+        if o.strip() != "ok":
+            tag, kind, lines, impl, s1, s2 = meta
+            rep.violation("both-reach-threshold", "two conflicting duties both collected a threshold of partial signatures",
+                          {"scenario": tag, "kind": kind, "signed_first": s1, "signed_second": s2})
+            found = True
+            break
+    if comb:
+        o2, crashed, err = run_impl(dh, wd, ["cluster 1,2 0"] + [c_[1] for c_ in comb], engine="dkg")
+        rep.cov["threshold_signatures_combined_and_verified"] = sum(1 for x in o2[1:] if x.strip() == "valid")
+        for (tag, line), o in zip(comb, o2[1:]):
+            if o.strip() != "valid":
+                rep.broken.append(("tie:partial-signatures(valid partial signatures over the model's signing root recover a composite signature)",
+                                   json.dumps({"scenario": tag, "result": o}), False))
+                break
+    rep.cov["traces_validated_against_impl"] = len(res)
+    if res:
+        rep.sample({"scenario": scen[0][0], "lines": [l[:140] for l in scen[0][4][:4]], "impl": [x[:60] for x in res[0]["impl"][:4]]})
+    if first_bad is not None:
+        tag, ls, a, b = first_bad
+        rep.broken.append(("correspondence:dkg-cluster(per-instance signer model vs implementation)",
+                           json.dumps({"scenario": tag, "lines": ls[-3:], "impl": a[:120], "model": b[:120]}), found))
+
+
+def run_dkg(rep, dh, wd, scen, label):
+    """scen: list of (tag, lines). Returns list of dicts {tag, lines, impl, model, crashed, bad}."""
+    from common import run_impl, run_model
+    from concurrent.futures import ThreadPoolExecutor
+    jobs = min(12, max(1, len(scen) // 3))
+    chunks = [scen[i::jobs] for i in range(jobs)]
+    chunks = [c for c in chunks if c]
+
+    def run_chunk(ch):
+        lines = []
+        for sc in ch:
+            lines += sc[-1]
+        impl, crashed, err = run_impl(dh, wd, lines, engine="dkg", timeout=1800)
+        res = []
+        pos = 0
+        for sc in ch:
+            n = len(sc[-1])
+            seg = impl[pos:pos + n]
+            res.append({"tag": sc[0], "extra": sc[1:-1], "lines": sc[-1], "impl": seg, "crashed": crashed and len(seg) < n, "err": err if len(seg) < n else ""})
+            pos += n
+            if len(seg) < n:
+                # the process died in this scenario: the remaining scenarios of the chunk did not run
+                for sc2 in ch[ch.index(sc) + 1:]:
+                    res.append({"tag": sc2[0], "extra": sc2[1:-1], "lines": sc2[-1], "impl": None, "crashed": False, "err": "not run"})
+                break
+        return res
+    results = []
+    with ThreadPoolExecutor(max_workers=jobs) as ex:
+        for r_ in ex.map(run_chunk, chunks):
+            results += r_
+    # rerun scenarios that did not run because an earlier one in their chunk crashed
+    pending = [r_ for r_ in results if r_["impl"] is None]
+    for r_ in pending:
+        impl, crashed, err = run_impl(dh, wd, r_["lines"], engine="dkg", timeout=600)
+        r_["impl"] = impl
+        r_["crashed"] = crashed and len(impl) < len(r_["lines"])
+        r_["err"] = err
+    ml = []
+    for r_ in results:
+        ml += ["reset"] + r_["lines"]
+    mout = run_model(ml)
+    pos = 0
+    for r_ in results:
+        n = len(r_["lines"])
+        r_["model"] = mout[pos:pos + n]
+        pos += n
+        bad = []
+        for i, l in enumerate(r_["lines"]):
+            op = l.split()[0]
+            rep.dist("op", op)
+            if op not in DKG_DIFF_OPS or i >= len(r_["impl"]):
+                continue
+            a, b = r_["impl"][i], r_["model"][i] if i < len(r_["model"]) else "<missing>"
+            if op == "gen":
+                a, b = a.split()[0], b.split()[0]
+            if a.strip() != b.strip():
+                bad.append((i, l, r_["impl"][i], b))
+        r_["bad"] = bad
+    return results
+
+
+def dkg_report_crash(rep, r_, pid):
+    i = len(r_["impl"])
+    rep.violation("crash-" + (r_["extra"][0].split(":")[0] if r_["extra"] else "dkg"),
+                  "an instance process died (panic) while handling a key-generation message",
+                  {"scenario": r_["tag"], "lines": r_["lines"][:i + 1], "stderr": r_["err"][-1500:]})
+
+
+def c12(rep, tier, seed, wd, replay):
+    import dkg
+    from common import run_impl, run_model
+    rep.cov["rule"] = ("generations over real process/standard instances joined by a routing sender through the real receiver handlers: all "
+                       "(n,t) with 2<=n<=5 (thorough 7) and EVERY t in 0..n+1; identifier sets small / sparse / near 2^64 / mixed; different "
+                       "initiators; delayed commit replies; tampered commit replies; forbidden clients; non-distributed wallets; more "
+                       "participants than peers. On success: same composite key, vector, threshold, participants everywhere; share consistent "
+                       "with vector (BLS library); every t-subset of real partial signatures recovers a valid composite signature and every "
+                       "(t-1)-subset does not; Lagrange recovery of the secret computed by the Lean driver over Z_r from the extracted shares "
+                       "maps to the composite key; immediate sign+list on every holder; non-trivial = scenario with a successful generation")
+    rep.assumptions += ["herumi BLS (field/group laws, hashing to curve, Recover), CSPRNG quality",
+                        "real gRPC between daemons is not available in the sandbox (peer names do not resolve); messages go through the real receiver handlers after a protobuf marshal/unmarshal round trip"]
+    prove(rep, "C12")
+    dh = build_harness(wd)
+    rng = Rng(seed * 7 + 12)
+    scen = dkg.c12_scenarios(rng, tier)
+    res = run_dkg(rep, dh, wd, scen, "dkg")
+    found = False
+    first_bad = None
+    lag = []
+    for r_ in res:
+        if r_["crashed"]:
+            dkg_report_crash(rep, r_, "C12")
+            found = True
+            continue
+        if r_["bad"] and first_bad is None:
+            first_bad = r_
+        pubs = {}
+        success = False
+        for i, l in enumerate(r_["lines"]):
+            f = l.split()
+            o = r_["impl"][i] if i < len(r_["impl"]) else ""
+            if f[0] == "gen" and o.startswith("ok"):
+                pubs[f[3]] = o.split()[1]
+                success = True
+                rep.dist("generation", "ok")
+            elif f[0] == "gen":
+                rep.dist("generation", "refused")
+            if f[0] == "relations":
+                if not o.startswith("ok") or ("composite=" + pubs.get(f[1], "?")) not in o:
+                    rep.violation("inconsistent-key", "after a successful generation the participants do not hold one consistent threshold key: " + o[:120],
+                                  {"scenario": r_["tag"], "lines": r_["lines"][:i + 1], "impl": r_["impl"][:i + 1]})
+                    found = True
+            if f[0] == "recover" and not o.startswith("ok"):
+                rep.violation("threshold-recovery", "threshold signatures do not behave as t-of-n: " + o[:120],
+                              {"scenario": r_["tag"], "lines": r_["lines"][:i + 1], "impl": r_["impl"][:i + 1]})
+                found = True
+            if f[0] == "use" and o != "ok":
+                rep.violation("not-usable", "a freshly generated account is not immediately usable for signing/listing: " + o[:120],
+                              {"scenario": r_["tag"], "lines": r_["lines"][:i + 1], "impl": r_["impl"][:i + 1]})
+                found = True
+            if f[0] == "shares" and ":" in o:
+                pts = o.split()
+                t = None
+                for j in range(i, -1, -1):
+                    if r_["lines"][j].startswith("gen"):
+                        t = int(r_["lines"][j].split()[4])
+                        break
+                import itertools
+                subs = list(itertools.combinations(pts, t))[:6]
+                for sub in subs:
+                    lag.append((pubs.get(f[1]), "lagrange " + " ".join(sub), r_["tag"]))
+        rep.count(r_["tag"], success)
+    if lag:
+        secrets = run_model([x[1] for x in lag])
+        out, crashed, err = run_impl(dh, wd, ["cluster 1,2 0"] + ["pubof %s" % s_ for s_ in secrets], engine="dkg")
+        rep.cov["lagrange_recoveries_by_lean_driver"] = len(lag)
+        for (want, line, tag), got in zip(lag, out[1:]):
+            if want != got.strip():
+                rep.violation("lagrange-mismatch", "the secret recovered by Lagrange interpolation (Lean driver, Z_r) from a t-subset of the shares does not map to the composite public key",
+                              {"scenario": tag, "lagrange": line[:300], "composite": want, "pub_of_recovered": got})
+                found = True
+                break
+    if res:
+        r_ = res[0]
+        rep.sample({"scenario": r_["tag"], "lines": r_["lines"][:3], "impl": [x[:100] for x in r_["impl"][:3]], "model": r_["model"][:3]})
+    rep.cov["traces_validated_against_impl"] = len(res)
+    if first_bad is not None:
+        i, l, a, b = first_bad["bad"][0]
+        rep.broken.append(("correspondence:dkg(model generateOutcome/holds vs process service)",
+                           json.dumps({"scenario": first_bad["tag"], "lines": first_bad["lines"][:i + 1], "impl": a[:200], "model": b[:200]}), found))
+
+
+def c13(rep, tier, seed, wd, replay):
+    import dkg
+    rep.cov["rule"] = ("for (n,t) in {(2,2),(3,2),(3,3)} (thorough +(4,3)) EVERY fault kind (message lost, error reply, share replaced, "
+                       "commitment altered, vector too short / too long / too long with a neutral extra entry, altered reply share / vector, "
+                       "duplicate delivery) at EVERY prepare / execute / contribute message position; expected: the generation ends with an "
+                       "error, no instance holds the account, no process dies, and a clean generation afterwards succeeds; enumerated completely")
+    rep.assumptions += ["faults are injected by the routing sender between the instances (the real transport is not available in the sandbox)"]
+    prove(rep, "C13")
+    dh = build_harness(wd)
+    scen = dkg.c13_scenarios(tier)
+    res = run_dkg(rep, dh, wd, scen, "dkg-faults")
+    found = False
+    first_bad = None
+    for r_ in res:
+        fault = r_["extra"][0]
+        rep.dist("fault", fault.split(":")[0])
+        rep.count(r_["tag"], True)
+        if r_["crashed"]:
+            dkg_report_crash(rep, r_, "C13")
+            found = True
+            continue
+        if r_["bad"] and first_bad is None:
+            first_bad = r_
+        if fault == "dup":
+            continue
+        gen_o, holds_o = r_["impl"][1], r_["impl"][2]
+        if gen_o.startswith("ok") or "true" in holds_o:
+            rep.violation("account-after-" + fault.split(":")[0],
+                          "a generation with an invalid or failed exchange %s" % ("reported success" if gen_o.startswith("ok") else "left an account behind"),
+                          {"scenario": r_["tag"], "lines": r_["lines"][:3], "impl": r_["impl"][:3]})
+            found = True
+    rep.cov["exhaustive"] = True
+    rep.cov["traces_validated_against_impl"] = len(res)
+    if res:
+        r_ = res[-1]
+        rep.sample({"scenario": r_["tag"], "lines": r_["lines"][:3], "impl": [x[:100] for x in r_["impl"][:3]]})
+    if first_bad is not None:
+        i, l, a, b = first_bad["bad"][0]
+        rep.broken.append(("correspondence:dkg-faults(model generateOutcome vs process service)",
+                           json.dumps({"scenario": first_bad["tag"], "lines": first_bad["lines"][:i + 1], "impl": a[:200], "model": b[:200]}), found))
+
+
+def c16(rep, tier, seed, wd, replay):
+    import dkg
+    rep.cov["rule"] = ("real receiver handlers with context-injected authenticated names: every caller kind (ordinary client with full "
+                       "permissions, empty, unknown, a peer name in another case, an unconfigured signer name, a near-miss name) x the five "
+                       "protocol messages x every instance x session states none/prepared/executed/committed; afterwards the generation is "
+                       "driven to completion by a peer to show nothing was disturbed; each peer identity is honoured; share ownership for all "
+                       "ordered participant pairs: the share in a contribution reply verifies against the owner's vector at the caller's id only; "
+                       "the matrix is enumerated completely")
+    prove(rep, "C16")
+    dh = build_harness(wd)
+    scen = dkg.c16_scenarios(tier)
+    res = run_dkg(rep, dh, wd, scen, "dkg-auth")
+    found = False
+    first_bad = None
+    for r_ in res:
+        rep.count(r_["tag"], True)
+        if r_["crashed"]:
+            dkg_report_crash(rep, r_, "C16")
+            found = True
+            continue
+        for i, l in enumerate(r_["lines"]):
+            f = l.split()
+            o = r_["impl"][i]
+            if f[0] == "shareowner":
+                rep.dist("shareowner", o)
+                if o != "share-for=%s" % f[2]:
+                    rep.violation("share-not-callers", "the share in a contribution reply is not (only) the authenticated caller's: " + o,
+                                  {"scenario": r_["tag"], "lines": r_["lines"][:i + 1], "impl": r_["impl"][:i + 1]})
+                    found = True
+        for (i, l, a, b) in r_["bad"]:
+            f = l.split()
+            if f[0] in dkg.MSGS and b == "E:unknownsender" and a != b:
+                rep.violation("non-peer-honoured", "a key-generation message from a caller that is not a configured peer was acted on (%s)" % a,
+                              {"scenario": r_["tag"], "lines": r_["lines"][:i + 1], "impl": r_["impl"][:i + 1]})
+                found = True
+                break
+        if r_["bad"] and first_bad is None:
+            first_bad = r_
+    rep.cov["exhaustive"] = True
+    rep.cov["traces_validated_against_impl"] = len(res)
+    if res:
+        r_ = res[1]
+        rep.sample({"scenario": r_["tag"], "lines": r_["lines"][1:4], "impl": r_["impl"][1:4]})
+    if first_bad is not None:
+        i, l, a, b = first_bad["bad"][0]
+        rep.broken.append(("correspondence:dkg-auth(model receiver handlers vs implementation)",
+                           json.dumps({"scenario": first_bad["tag"], "lines": first_bad["lines"][:i + 1], "impl": a[:200], "model": b[:200]}), found))
+
+
+def c17(rep, tier, seed, wd, replay):
+    import dkg
+    from common import run_model
+    rep.cov["rule"] = ("event sequences (prepare / execute / contribute / commit / abort from peer identities, short and expiring sleeps, a "
+                       "generation timeout of 3 s) over two account names on real instances: hand-written lifecycles (full, early commit and "
+                       "abort, expiry, two names interleaved, a contribution from a peer that is not a listed participant) plus seeded random "
+                       "sequences restricted to outcomes that do not depend on Go's map iteration order; the reply class of every event and the "
+                       "presence of the account are compared with the Lean state machine; every successful commit is judged 'all listed "
+                       "participants contributed' on the model state")
+    rep.assumptions += ["the model clock advances only by explicit sleeps; sleeps are chosen far from the timeout (<= 0.3 s or >= 3.6 s against 3 s)"]
+    prove(rep, "C17")
+    dh = build_harness(wd)
+    rng = Rng(seed * 13 + 17)
+    scen = dkg.c17_scenarios(rng, tier)
+    res = run_dkg(rep, dh, wd, scen, "dkg-life")
+    found = False
+    first_bad = None
+    jl, jm = [], []
+    for ri, r_ in enumerate(res):
+        rep.count(r_["tag"], True)
+        if r_["crashed"]:
+            dkg_report_crash(rep, r_, "C17")
+            found = True
+            continue
+        jl.append("reset")
+        for i, l in enumerate(r_["lines"]):
+            f = l.split()
+            if f[0] == "hcommit" and i < len(r_["impl"]):
+                rep.dist("commit", r_["impl"][i])
+                jl.append("jcommit %s %s %s" % (f[1], f[3], r_["impl"][i]))
+                jm.append((ri, i))
+            if f[0] in DKG_DIFF_OPS:
+                jl.append(l)
+                jm.append(None)
+        if r_["bad"] and first_bad is None:
+            first_bad = r_
+    out = run_model(jl)
+    for m, o in zip(jm, out):
+        if m is not None and o.strip() not in ("ok",):
+            ri, i = m
+            rep.violation("commit-" + o.strip(), "a commit succeeded although not every listed participant had contributed (%s)" % o.strip(),
+                          {"scenario": res[ri]["tag"], "lines": res[ri]["lines"][:i + 1], "impl": res[ri]["impl"][:i + 1]})
+            found = True
+            break
+    rep.cov["traces_validated_against_impl"] = len(res)
+    if res:
+        r_ = res[0]
+        rep.sample({"scenario": r_["tag"], "lines": r_["lines"][:4], "impl": r_["impl"][:4], "model": r_["model"][:4]})
+    if first_bad is not None:
+        i, l, a, b = first_bad["bad"][0]
+        rep.broken.append(("correspondence:dkg-life(model session state machine vs process service)",
+                           json.dumps({"scenario": first_bad["tag"], "lines": first_bad["lines"][:i + 1], "impl": a[:200], "model": b[:200]}), found))
+
+
 THEOREMS.update({
+    "C12": ("Dirk.Props.C12", ["Dirk.Dkg.C12_share_consistent", "Dirk.Dkg.C12_same_key", "Dirk.Dkg.C12_recover", "Dirk.Dkg.C12_fewer_fail",
+                               "Dirk.Dkg.C12_bounds", "Dirk.Dkg.C12_protocol_success"]),
+    "C18": ("Dirk.Props.C18", ["Dirk.C18_sound", "Dirk.C18_complete", "Dirk.C18_fields", "Dirk.C18_dynamic"]),
+    "C14": ("Dirk.Props.C14", ["Dirk.C14", "Dirk.C14_proposals", "Dirk.C14_threshold_from_generation"]),
+    "C13": ("Dirk.Props.C13", ["Dirk.Dkg.C13_reject", "Dirk.Dkg.C13_no_account", "Dirk.Dkg.C13_legacy_counterexample"]),
+    "C16": ("Dirk.Props.C16", ["Dirk.Dkg.C16_refuse_non_peer", "Dirk.Dkg.C16_share_owner"]),
+    "C17": ("Dirk.Props.C17", ["Dirk.Dkg.C17_prepare_twice", "Dirk.Dkg.C17_requires_active", "Dirk.Dkg.C17_gone_after",
+                               "Dirk.Dkg.C17_commit_complete", "Dirk.Dkg.C17_legacy_counterexample"]),
     "C03": ("Dirk.Props.C03", ["Dirk.C03_recorded_before_release", "Dirk.C03_refuses_after_crash", "Dirk.C03_released_never_slashable"]),
     "C04": ("Dirk.Props.C04", ["Dirk.Conc.C04_mutual_exclusion", "Dirk.Conc.C04_commit_atomic", "Dirk.Conc.C04_linearizable",
                                "Dirk.Conc.C04_real_time_order", "Dirk.C04_footprint_attest", "Dirk.C04_trace_is_protocol"]),
@@ -1442,4 +1924,4 @@ THEOREMS.update({
                                "Dirk.C06_batch_fetch_fault", "Dirk.C06_shape_atts", "Dirk.C06_shape_msign"]),
 })
 
-CHECKS = {"C01": c01, "C02": c02, "C05": c05, "C06": c06, "C07": c07, "C08": c08, "C09": c09, "C10": c10, "C11": c11, "C04": c04, "C15": c15, "C03": c03}
+CHECKS = {"C01": c01, "C02": c02, "C05": c05, "C06": c06, "C07": c07, "C08": c08, "C09": c09, "C10": c10, "C11": c11, "C04": c04, "C15": c15, "C03": c03, "C12": c12, "C13": c13, "C16": c16, "C17": c17, "C14": c14, "C18": c18}
